@@ -14,7 +14,7 @@ var WideSizes = []int{1, 2, 3, 4, 5, 6, 7, 8, 9, 10, 11, 12, 13, 14, 15, 16, 17,
 var WideKinds = []string{"project", "project-names", "extend", "extend-unnamed", "summarize-aggs", "summarize-keys", "sort", "in", "call-args", "strcat", "and", "or", "plus", "minus",
 	"join-conds", "render-props", "lets", "let-chain", "statements", "wheres", "extends", "parens", "qualified", "neg-parens", "not-nest", "iff-nest", "index-nest", "joins",
 	"in-consts", "let-uses", "where-consts", "in-lits", "in-plain",
-	"in-repeats", "in-paren-lits", "joins-nested", "index-parens", "lets-shadowing", "render-props-repeated"}
+	"in-repeats", "in-paren-lits", "joins-nested", "index-parens", "lets-shadowing", "render-props-repeated", "lists-nested"}
 
 // WideSizesBig continues WideSizes up to a few thousand elements.
 var WideSizesBig = []int{512, 999, 1000, 1001, 1023, 1024, 1025, 2047, 2048, 2049, 2100, 4097}
@@ -252,6 +252,31 @@ func Wide(kind string, n int) *Program {
 			}
 		}
 		return q(&Op{K: "where", X: e})
+	case "lists-nested":
+		// a list of n elements whose middle element is a call of n arguments whose
+		// middle argument is a list of n elements again (and a join with n
+		// conditions around it when n is small)
+		inner := In(Name("z"))
+		for i := 0; i < n; i++ {
+			inner.Kids = append(inner.Kids, Num(fmt.Sprint(i)))
+		}
+		call := Call("f")
+		for i := 0; i < n; i++ {
+			if i == n/2 {
+				call.Kids = append(call.Kids, inner)
+			} else {
+				call.Kids = append(call.Kids, Name(fmt.Sprintf("a%d", i)))
+			}
+		}
+		outer := In(Name("x"))
+		for i := 0; i < n; i++ {
+			if i == n/2 {
+				outer.Kids = append(outer.Kids, call)
+			} else {
+				outer.Kids = append(outer.Kids, Num(fmt.Sprint(100+i)))
+			}
+		}
+		return q(&Op{K: "where", X: Bin("and", outer, Bin("==", Name("tail"), Num("1")))})
 	case "in-paren-lits":
 		// literals, some of them in parentheses
 		e := In(Name("x"))
